@@ -96,6 +96,80 @@ def check_case(costs, order=None):
     return out
 
 
+def check_copies(costs_a, extra, how):
+    """A sorted population; copies of its members (as NSGA-II makes them every generation) are sorted again together with
+    new designs. The second sorting is correct AND leaves the ranks already assigned to the first population alone."""
+    import copy
+    from artap.algorithm_NSGAII import IndividualNSGAII
+    from artap.algorithm_swarm import IndividualSwarm
+    from artap.individual import Individual
+    cls = IndividualSwarm if how == "swarm_copy" else IndividualNSGAII
+    Individual.counter = 0
+    pop_a = []
+    for c in costs_a:
+        ind = cls([0.0])
+        ind.costs_signed = list(c)
+        pop_a.append(ind)
+    out = []
+    try:
+        selector().fast_nondominated_sorting(pop_a)
+        ranks_a = [p.features.get('front_number') for p in pop_a]
+        if how == "deepcopy":
+            pop_b = [copy.deepcopy(p) for p in pop_a]
+        else:
+            pop_b = [p.copy() for p in pop_a]
+            for p, q in zip(pop_a, pop_b):
+                q.costs_signed = list(p.costs_signed)
+        for c in extra:
+            ind = cls([0.0])
+            ind.costs_signed = list(c)
+            pop_b.append(ind)
+        selector().fast_nondominated_sorting(pop_b)
+    except Exception as e:
+        return [("C02:copies:exception:%s" % type(e).__name__, "sorting %r then copies + %r raised %r" % (costs_a, extra, e))]
+    _KEEP.append(pop_a)
+    _KEEP.append(pop_b)
+    if ranks_a != ref_ranks(list(costs_a)):
+        out.append(("C02:copies:first-sort", "costs %r: front numbers %r, definition %r" % (costs_a, ranks_a, ref_ranks(list(costs_a)))))
+    got_b = [p.features.get('front_number') for p in pop_b]
+    exp_b = ref_ranks(list(costs_a) + list(extra))
+    if got_b != exp_b:
+        out.append(("C02:copies:second-sort:%s" % how, "copies (%s) of %r plus %r: front numbers %r, definition %r" % (how, costs_a, extra, got_b, exp_b)))
+    now_a = [p.features.get('front_number') for p in pop_a]
+    if now_a != ranks_a:
+        out.append(("C02:copies:ranks-of-an-earlier-population-rewritten:%s" % how,
+                    "population %r was ranked %r; after sorting its copies (%s) together with %r its own front numbers read %r" % (costs_a, ranks_a, how, extra, now_a)))
+    return out
+
+
+def check_option_selector(costs, variant):
+    """The sorter of selectors built with constructor options ranks by constrained Pareto dominance like any other."""
+    from artap.individual import Individual
+    from artap.operators import TournamentSelector, EpsilonDominance, ParetoDominance
+    params = [{"name": "x", "bounds": [0.0, 1.0]}]
+    if variant == "eps_class":
+        sel = TournamentSelector(params, dominance=EpsilonDominance, epsilons=[0.5, 0.5])
+    elif variant == "eps_list":
+        sel = TournamentSelector(params, epsilons=[0.5, 2.0])
+    else:
+        sel = TournamentSelector(params, dominance=ParetoDominance, epsilons=0.25)
+    Individual.counter = 0
+    pop = []
+    for c in costs:
+        ind = Individual([0.0])
+        ind.costs_signed = list(c)
+        pop.append(ind)
+    try:
+        sel.fast_nondominated_sorting(pop)
+    except Exception as e:
+        return [("C02:option-selector:exception:%s" % type(e).__name__, "sorting %r with %s raised %r" % (costs, variant, e))]
+    got = [p.features.get('front_number') for p in pop]
+    exp = ref_ranks(list(costs))
+    if got != exp:
+        return [("C02:option-selector:rank:%s" % variant, "TournamentSelector built with options (%s): costs %r front numbers %r, definition %r" % (variant, costs, got, exp))]
+    return []
+
+
 def relation_code(costs):
     n = len(costs)
     code = 0
@@ -106,6 +180,32 @@ def relation_code(costs):
 
 
 def _shard(shard, col: Collector):
+    if shard[0] == "copies":
+        _, how, first = shard
+        alpha = alphabet("V3x2F")
+        small = [a for a in alpha if a[-1]][::2] + [alpha[0]]
+        for n in (1, 2, 3):
+            for rest in itertools.product(alpha if n < 3 else small, repeat=n - 1):
+                costs_a = (first,) + rest
+                for k in (0, 1, 2):
+                    for extra in itertools.product(small, repeat=k):
+                        col.case()
+                        col.nontrivial(("copies", how, costs_a, extra))
+                        for key, msg in check_copies(costs_a, extra, how):
+                            col.violation(key, "copies", msg, {"costs_a": costs_a, "extra": extra, "how": how})
+        col.sample({"kind": "sorted population, then its copies sorted with newcomers", "how": how, "first": list(first)}, 1)
+        return
+    if shard[0] == "optsel":
+        _, variant = shard
+        alpha = alphabet("V3x2F")
+        for n in (1, 2, 3, 4):
+            for costs in itertools.product(alpha if n < 4 else alpha[::2], repeat=n):
+                col.case()
+                col.nontrivial(("optsel", variant, costs))
+                for key, msg in check_option_selector(costs, variant):
+                    col.violation(key, "optsel", msg, {"costs": costs, "variant": variant})
+        col.sample({"kind": "selector built with constructor options", "variant": variant}, 1)
+        return
     if shard[0] == "perm":
         # list order differs from creation (id) order: every permutation of the creation order
         _, name, n, fixed = shard
@@ -153,6 +253,10 @@ def _shard(shard, col: Collector):
 
 
 def replay(sub, case):
+    if sub == "copies":
+        return check_copies(tuple(tuple(c) for c in case["costs_a"]), tuple(tuple(c) for c in case["extra"]), case["how"])
+    if sub == "optsel":
+        return check_option_selector(tuple(tuple(c) for c in case["costs"]), case["variant"])
     return check_case([tuple(c) for c in case["costs"]], tuple(case["order"]) if case.get("order") else None)
 
 
@@ -196,6 +300,11 @@ def run(tier, seed):
         add("V5x2", 5, 2)
         add("V5x2", 4, 1)
         add("V3x2F", 5, 2)
+    for how in ("nsga2_copy", "swarm_copy", "deepcopy"):
+        for a in alphabet("V3x2F")[:: (1 if tier == "thorough" else 3)]:
+            shards.append(("copies", how, a))
+    for variant in ("eps_class", "eps_list", "pareto_scalar"):
+        shards.append(("optsel", variant))
     col = run_shards(_shard, shards)
     posets = {1: 1, 2: 3, 3: 19, 4: 219, 5: 4231}
     realised = {k: len(v) + 1 for k, v in col.sets.items() if k.startswith("rel_n")}  # +1: the empty relation
